@@ -76,7 +76,8 @@ def make_module():
 
 
 def build(shape, mode, eoe):
-    from typing import Dict, List, Optional, Union
+    import decimal
+    from typing import Any, Callable, Dict, List, Literal, Optional, Set, Tuple, Type, Union
 
     from jsonargparse import ActionConfigFile, ActionYesNo, ArgumentParser
     from jsonargparse.typing import Path_fr, PositiveInt
@@ -100,6 +101,17 @@ def build(shape, mode, eoe):
     p.add_argument("--g.x", type=int, default=1)
     p.add_argument("--g.y.z", type=Optional[int], default=None)
     p.add_argument("--flag", action=ActionYesNo, default=False)
+    # types whose branches have handlers of their own (not wrapped in Optional: a Union swallows everything)
+    p.add_argument("--fn", type=Callable[[int], m.Base], default=None)
+    p.add_argument("--cb", type=Callable, default=None)
+    p.add_argument("--ty", type=Type[m.Base], default=m.Base)
+    p.add_argument("--req", type=m.Base, default=None)
+    p.add_argument("--dec", type=decimal.Decimal, default=decimal.Decimal("1"))
+    p.add_argument("--tup", type=Tuple[int, str], default=(1, "a"))
+    p.add_argument("--st", type=Set[int], default=None)
+    p.add_argument("--lit", type=Literal["a", 1], default="a")
+    p.add_argument("--any", type=Any, default=None)
+    p.add_argument("--dl", type=Dict[str, List[int]], default={})
     if shape == "sub":
         sc = p.add_subcommands(required=False)
         # sub-parsers built the plain way: their own exit_on_error must not matter
@@ -127,7 +139,8 @@ BAD_VALUES = [
     ("init-args-not-map", '{"class_path": "verif_c03mod.Sub", "init_args": [1]}'), ("class-path-not-str", '{"class_path": 5}'),
     ("class-path-typing", '{"class_path": "typing.List"}'), ("class-name-only", "NoSuchClass"), ("deep", "[" * 40 + "]" * 40), ("unicode", "\u00e9\u4e2d\U0001f600"), ("nul", "a\x00b"),
 ]
-OPTIONS = ["i", "f", "b", "s", "l", "d", "u", "e", "p", "pos", "dc", "model", "models", "g.x", "g.y.z", "flag", "cfg"]
+OPTIONS = ["i", "f", "b", "s", "l", "d", "u", "e", "p", "pos", "dc", "model", "models", "g.x", "g.y.z", "flag", "cfg",
+           "fn", "cb", "ty", "req", "dec", "tup", "st", "lit", "any", "dl"]
 MALFORMED_NAMES = [
     ("unknown", ["--zz=1"]), ("unknown-dotted", ["--g.zz=1"]), ("trailing-dot", ["--g.=1"]), ("leading-dot", ["--.x=1"]), ("double-dot", ["--g..x=1"]),
     ("plus-no-value", ["--l+"]), ("plus-empty", ["--l+="]), ("plus-on-scalar", ["--i+=1"]), ("dict-empty-item", ["--d.=1"]), ("dict-double-dot", ["--d..k=1"]),
@@ -148,6 +161,22 @@ def productions(shape, tmp):
             out.append((f"argv:{opt}:{vl}", "parse_args", [f"--{opt}={v}"]))
     for lab, argv in MALFORMED_NAMES:
         out.append((f"argv:{lab}", "parse_args", argv))
+    # every bad value also as the value of the key in a config document and in an object (the value as JSON when it is JSON)
+    for opt in OPTIONS:
+        if opt in ("cfg",):
+            continue
+        for vl, v in BAD_VALUES:
+            try:
+                val = json.loads(v)
+            except Exception:
+                val = v
+            node = val
+            for part in reversed(opt.split(".")):
+                node = {part: node}
+            out.append((f"string:{opt}:{vl}", "parse_string", json.dumps(node)))
+            out.append((f"object:{opt}:{vl}", "parse_object", node))
+    out.append(("argv:dict-item-list", "parse_args", ["--dl.k=[1,"]))
+    out.append(("argv:dict-item-bad", "parse_args", ["--dl.k=[1, \"a\"]"]))
     d = os.path.join(tmp, "adir")
     os.makedirs(d, exist_ok=True)
     broken = os.path.join(tmp, "broken.yaml")
@@ -528,14 +557,18 @@ def main(argv):
 def _generalise(label):
     """the input class without the option it was applied to, so that one defect has one key"""
     parts = label.split(":")
-    if parts[0] in ("argv", "env") and len(parts) == 3:
+    if parts[0] in ("argv", "env", "string", "object") and len(parts) == 3 and parts[1] in _OPTKINDS:
         return f"{parts[0]}:{_optkind(parts[1])}:{parts[2]}"
     return label
 
 
 def _optkind(opt):
-    return {"i": "scalar", "f": "scalar", "b": "scalar", "pos": "scalar", "e": "enum", "s": "optstr", "l": "list", "d": "dict", "u": "union", "p": "path", "dc": "dataclass",
-            "model": "class", "models": "classlist", "g.x": "scalar", "g.y.z": "optint", "flag": "yesno", "cfg": "cfg"}.get(opt, opt)
+    return _OPTKINDS.get(opt, opt)
+
+
+_OPTKINDS = {"fn": "callable", "cb": "callable", "ty": "type", "req": "class", "dec": "decimal", "tup": "tuple", "st": "set", "lit": "literal", "any": "any", "dl": "dict",
+             "i": "scalar", "f": "scalar", "b": "scalar", "pos": "scalar", "e": "enum", "s": "optstr", "l": "list", "d": "dict", "u": "union", "p": "path", "dc": "dataclass",
+            "model": "class", "models": "classlist", "g.x": "scalar", "g.y.z": "optint", "flag": "yesno", "cfg": "cfg"}
 
 
 def _count(it):
